@@ -631,7 +631,7 @@ func openers() []c09Input {
 }
 
 func TestC09(t *testing.T) {
-	cfg := LoadCfg(t, 90, 900)
+	cfg := LoadCfg(t, 350, 3500)
 	em := NewEmitter(t, cfg.Out)
 	defer em.Close()
 	var inputs []c09Input
